@@ -24,6 +24,7 @@ type fConn struct {
 	writes int
 	closed bool
 	closes int
+	slow   bool // Write has a scheduling point before it takes effect (a slow underlying conn)
 }
 
 func (c *fConn) Read(p []byte) (int, error) {
@@ -39,6 +40,9 @@ func (c *fConn) Read(p []byte) (int, error) {
 	return n, nil
 }
 func (c *fConn) Write(p []byte) (int, error) {
+	if c.slow {
+		vrt.Yield()
+	}
 	c.writes++
 	c.out = append(c.out, p...)
 	return len(p), nil
@@ -79,7 +83,7 @@ func VerifH_HeaderConn() {
 
 // VerifH_HeaderConnConcurrent: two goroutines write concurrently for the first time.
 func VerifH_HeaderConnConcurrent() {
-	under := &fConn{}
+	under := &fConn{slow: true}
 	hc := NewHeaderConn(under, "HD")
 	d1, d2 := false, false
 	go func() { _, _ = hc.Write([]byte{'a'}); d1 = true }()
@@ -210,4 +214,52 @@ func VerifH_MuxStop() {
 	}
 	vrt.Assert(vrt.Unfinished() == 0, "no goroutine of the mux is left behind")
 	vrt.Cover("muxstop-end")
+}
+
+
+// VerifH_RouteThenStop: a connection is routed while nobody is accepting on its listener;
+// then the listener is closed or the mux stops (symbolic), or an Accept finally arrives.
+// The connection must end up delivered to exactly one Accept or closed - never neither.
+func VerifH_RouteThenStop() {
+	base := &fListener{}
+	m := NewListenMux(base, 2)
+	routed := m.Route("ab")
+	toRoute := vrt.Bool("registeredPrefix")
+	data := []byte{'a', 'b', 'x'}
+	if !toRoute {
+		data = []byte{'z', 'z', 'x'}
+	}
+	conn := &fConn{in: data}
+	rdone := false
+	go func() { m.routeConn(conn); rdone = true }()
+	vrt.Quiesce()
+	var lis net.Listener = routed
+	if !toRoute {
+		lis = m.Default()
+	}
+	how := vrt.Choice("how", 2)
+	var got net.Conn
+	switch how {
+	case 0: // the listener is closed before anyone accepts
+		_ = lis.Close()
+		vrt.Quiesce()
+		c, err := lis.Accept()
+		if err == nil {
+			got = c
+		}
+	case 1: // an Accept arrives late
+		adone := false
+		go func() { got, _ = lis.Accept(); adone = true }()
+		vrt.Quiesce()
+		vrt.Assert(adone, "a late Accept returns")
+	}
+	vrt.Quiesce()
+	vrt.Assert(rdone, "routing completes")
+	vrt.Assert((got != nil) != conn.closed, "the routed connection is delivered to exactly one Accept or closed, never neither nor both")
+	if how == 1 {
+		vrt.Assert(got != nil, "a connection routed before the Accept is delivered to it")
+	}
+	_ = routed.Close()
+	_ = m.Default().Close()
+	vrt.Cover("routestop-end")
 }
